@@ -22,6 +22,7 @@ META = {
 }
 META["technique"] = "static analysis: dominance / provenance / typestate rules over rustc MIR facts (rustc_private driver) + path-partitioned abstract interpretation in a linear-inequality domain (view-length balance; Fourier-Motzkin emptiness, no execution, no external solver)"
 META["explanation"] += " R13.6 in the batched container's push_into_* / filter_map functions (helpers inlined, combinators desugared) the accumulated batch is only grown: nothing an adapter produced for a source batch is discarded."
+META["explanation"] += ' R13.7 the diffs an adapter produces for one source diff enter the batch front to back (no pop() of the per-diff result without reverse(), no rev()).'
 
 VEC_IMPL = "std::vec::Vec<eyeball_im::VectorDiff<T>>"
 ONE_IMPL = "eyeball_im::VectorDiff<T>"
@@ -44,6 +45,7 @@ def run(ctx):
     r13_1(ctx, vimp)
     r13_3(ctx, vimp)
     r13_6(ctx, vimp)
+    r13_7(ctx, vimp)
     ads = find_adapters(F)
     register_roles(ctx, ads)
     for name in ADAPTERS:
@@ -213,3 +215,56 @@ def r13_6(ctx, imp):
                          "`%s` applies `%s` to the batch it is accumulating: diffs an adapter already produced for this source batch are discarded, but they are relative to the consumer's view (e.g. Tail's PopBacks for a Truncate), so the view rebuilt from the batch no longer matches the adapter's state" % (f.name, m))
     if not bad:
         ctx.holds("R13.6", None, "output-never-shrinks", None, "%d batched container functions: the accumulated batch is only grown" % n)
+
+
+def r13_7(ctx, imp):
+    """order inside a group: what `map_diffs` returns for one source diff (e.g. [PopBack, PushFront]) enters the batch in that
+    order. Draining the per-diff result from the back (`pop()` without a preceding `reverse()`), or through `rev()`, emits the
+    growing diff before the shrinking one: the batch's end state is right, the states between its diffs are not. Expected 0."""
+    F = ctx.facts
+    n = 0
+    bad = 0
+    for p in imp["fns"]:
+        f = F.fn(UT, p)
+        if f is None or not f.built or not f.name.startswith("push_into_"):
+            continue
+        b = inl(F, f, desugar=True, tag="r13.6") or f.built
+        n += 1
+        # locals holding the result of calling the closure parameter
+        groups_ = set()
+        for blk, t in b.calls(r"ops::FnMut(<.*>)?>?::call_mut$|ops::FnOnce(<.*>)?>?::call_once$|ops::Fn(<.*>)?>?::call$"):
+            if not t["dest"]["proj"] and re.search(r"(SmallVec|ArrayVec)<", str(b.locals[t["dest"]["l"]]["ty"])) and "VectorDiff<" in str(b.locals[t["dest"]["l"]]["ty"]):
+                groups_.add(t["dest"]["l"])
+        whole, _ = b.defs
+        changed = True
+        while changed:   # plain moves of the group
+            changed = False
+            for l, ds in whole.items():
+                for loc, kind, payload in ds:
+                    if kind == "assign" and payload["k"] == "use" and payload["op"]["k"] in ("move", "copy") and not payload["op"]["place"]["proj"] and payload["op"]["place"]["l"] in groups_ and l not in groups_:
+                        groups_.add(l)
+                        changed = True
+
+        def on_group(op):
+            if op["k"] not in ("move", "copy") or op["place"]["proj"]:
+                return False
+            l = op["place"]["l"]
+            if l in groups_:
+                return True
+            for loc, kind, payload in whole.get(l, []):
+                if kind == "assign" and payload["k"] == "ref" and not payload["place"]["proj"] and payload["place"]["l"] in groups_:
+                    return True
+            return False
+        revs = [blk for blk, t in b.calls(r"::reverse$") if t["args"] and on_group(t["args"][0])]
+        for blk, t in b.calls(r"(SmallVec|ArrayVec)::<.*>::pop$"):
+            if t["args"] and on_group(t["args"][0]) and not any(b.dominates(r, blk) for r in revs):
+                bad += 1
+                ctx.violated("R13.7", f, "group-order-preserved", b.line_at((blk, 10 ** 6)),
+                             "`%s` takes the diffs an adapter produced for one source diff from the back (`pop()`, no `reverse()` before): a pair like [PopBack, PushFront] enters the batch as [PushFront, PopBack] - the consumer's view is one item too long between the two" % f.name)
+        for blk, t in b.calls(r"Iterator>?::rev$"):
+            e = b.expr_of_op(t["args"][0])
+            if contains(e, lambda y: y[0] == "call" and isinstance(y[1], str) and re.search(r"call_mut$|call_once$", y[1])):
+                bad += 1
+                ctx.violated("R13.7", f, "group-order-preserved", b.line_at((blk, 10 ** 6)), "`%s` iterates the diffs produced for one source diff in reverse" % f.name)
+    if not bad:
+        ctx.holds("R13.7", None, "group-order-preserved", None, "%d batched push_into_* functions: per-diff results enter the batch front to back" % n)
